@@ -352,6 +352,13 @@ def _h_build(name):
         d1 = pd.DataFrame({"a": [1, 20]})
         d2 = pl.DataFrame({"a": [1, 2]})
         return [lambda: spd.validate(d1, lazy=True), lambda: spl.validate(d2)], {"spd": spd, "spl": spl}
+    if name == "H13_shared_regex_schema_different_matches":
+        # one regex column, two frames in which the pattern matches DIFFERENT column sets (and only one of them is valid): whatever
+        # the expansion of the pattern is stored in must belong to the call, not to the shared Column
+        s = pa.DataFrameSchema({"a.*": pa.Column(int, pa.Check.ge(0), regex=True), "b": pa.Column(str, required=False)})
+        d1 = pd.DataFrame({"a1": [1, 2], "a2": [3, -4], "a3": [5, 6]})
+        d2 = pd.DataFrame({"a1": [1, 2], "b": ["x", "y"]})
+        return [lambda: s.validate(d1, lazy=True), lambda: s.validate(d2, lazy=True)], {"s": s}
     raise AssertionError(name)
 
 
@@ -359,7 +366,8 @@ HARNESSES = ["H0_pandas_distinct_schemas", "H1_pandas_shared_coercing_schema", "
              "H2b_pandas_shared_noncoercing_eager", "H3_polars_dataframe_vs_lazyframe", "H3b_polars_two_dataframes",
              "H4_polars_vs_pandas_in_user_context", "H5_two_schemas_sharing_one_column", "H6_model_cold_cache",
              "H7_three_threads", "H8_shared_regex_schema_one_failing", "H9_frame_dtype_override_shared",
-             "H10_polars_shared_coercing_schema", "H11_polars_frame_dtype_shared", "H12_pandas_vs_polars_unrelated"]
+             "H10_polars_shared_coercing_schema", "H11_polars_frame_dtype_shared", "H12_pandas_vs_polars_unrelated",
+             "H13_shared_regex_schema_different_matches"]
 
 
 def _prepare(name):
@@ -503,7 +511,7 @@ def plan(tier, seed):
     if tier == "quick":
         # the harnesses that are race-free on the current tree are cheap: explore them one bound deeper
         for h in ("H0_pandas_distinct_schemas", "H2b_pandas_shared_noncoercing_eager", "H5_two_schemas_sharing_one_column",
-                  "H8_shared_regex_schema_one_failing"):
+                  "H8_shared_regex_schema_one_failing", "H13_shared_regex_schema_different_matches"):
             for sh in range(4):
                 cases.append({"harness": h, "bound": 2, "max_exec": cap, "shard": [sh, 4]})
     return {"cases": cases, "exhaustive": True,
